@@ -10,6 +10,7 @@ fn factory(model: &str) -> Option<Factory> {
         "modules" => Box::new(|c: &Value| Box::new(models::modules::MM::new(c)) as Box<dyn Model>),
         "tms" => Box::new(|c: &Value| Box::new(models::tms::TmsM::new(c)) as Box<dyn Model>),
         "kb" => Box::new(|c: &Value| Box::new(models::kb::KB::new(c)) as Box<dyn Model>),
+        "watermark" => Box::new(|c: &Value| Box::new(models::watermark::WM::new(c)) as Box<dyn Model>),
         _ => return None,
     })
 }
